@@ -17,7 +17,7 @@ def run(tier, seed):
         dict(name="C16_exh_sf", consts=ec.consts({"sfwrite"}, 1, wa=1021, wb=4099, nsel=(0,))),
         dict(name="C16_exh_sf2", consts=ec.consts({"sfwrite"}, 1, wa=37, wb=331, nsel=(0,))),
         # buffer shapes: 3 forced adds (separate chains with big widths) then shape ops, then I/O
-        (dict(name="C16_shapes", consts=ec.consts({"add", "prepend", "addref", "evwrite"}, 4, wa=509, wb=2048, data=("a", "bLa"), nsel=(1, 2, 9), warm=3))
+        (dict(name="C16_shapes", consts=ec.consts({"add", "prepend", "addref", "evwrite"}, 5, wa=509, wb=2048, data=("a", "bLa"), nsel=(1, 2, 9), warm=3), stride=3)
          if q else
          dict(name="C16_shapes", consts=ec.consts(SHAPE | {"evwrite", "evread"}, 5, wa=509, wb=2048, data=("a", "bLa"), nsel=(1, 2, 9), warm=3), stride=4)),
     ]
